@@ -3,6 +3,7 @@
 (b) the polarity filter test sliced from find_sources_in_image on a symbolic peak flux and symbolic flags;
 (c) the isnegative / summit selector / amplitude-bound statements sliced from estimate_lmfit_parinfo, run
     relationally on (data, curve) and (-data, -curve)."""
+import math
 import sys
 import types
 
@@ -70,6 +71,14 @@ def polarity(rep):
         return
     skips_src = any(isinstance(n, ast_Continue) for n in node.body)
     rep.sample(dict(kernel='K-polarity-filter', test=text, body_is_continue=skips_src))
+    # the polarity options must act through the component's own peak flux only: every test that reads them is examined
+    fn_ = slicer.get_function(F, 'find_sources_in_image', 'SourceFinder')
+    tests = [_ast.unparse(n.test) for n in _ast.walk(fn_) if isinstance(n, (_ast.If, _ast.IfExp, _ast.While)) and ('nopositive' in _ast.unparse(n.test) or 'nonegative' in _ast.unparse(n.test))]
+    other = [t for t in tests if 'peak_flux' not in t]
+    rep.count('unsat' if not other else 'sat', 'polarity:the polarity options are tested against the component peak flux only')
+    if other:
+        bad, cls, detail = polarity_oracle()
+        rep.finding('C13/K-polarity-filter/%s' % (cls or 'second-filter'), dict(kind='polarity-catalogue'), detail or 'polarity options also tested in: %s' % other, reproduced=bad)
 
     def h(c):
         peak = real('peak')
@@ -237,13 +246,85 @@ def replay_selector(w):
         if p is None:
             return []
         n = int(p['components'].value)
-        return sorted((round(p['c%d_xo' % i].value, 6), round(p['c%d_yo' % i].value, 6), round(p['c%d_amp' % i].value, 9)) for i in range(n))
+        return [(round(p['c%d_xo' % i].value, 6), round(p['c%d_yo' % i].value, 6), round(p['c%d_amp' % i].value, 9)) for i in range(n)]     # component order matters
     A = comps(data, curve)
     B = comps(-data, -curve)
-    mirror = sorted((x, y, -a) for x, y, a in B)
+    mirror = [(x, y, -a) for x, y, a in B]
     bad = A != mirror
     mixed = (data[real_np.isfinite(data)] > 0).any() and (data[real_np.isfinite(data)] < 0).any()
     return bad, ('mixed-sign-island' if mixed else 'single-sign-island'), 'initial components %s vs mirrored components of the negated island %s' % (A, mirror)
+
+
+def two_summit_witness(sign=-1):
+    """a single-sign island with two blended summits of different brightness"""
+    y, x = real_np.mgrid[0:7, 0:13].astype(float)
+    g = lambda a, x0, y0: a * real_np.exp(-((x - x0) ** 2 + (y - y0) ** 2) / (2 * 1.3 ** 2))
+    data = g(10, 3, 3) + g(6, 9, 3) + 0.5
+    curve = real_np.zeros(data.shape)
+    curve[2:5, 2:5] = -1
+    curve[2:5, 8:11] = -1
+    return dict(kind='selector', data=(sign * data).tolist(), curve=(sign * curve).tolist(), outerclip=0.25, innerclip=0.3)
+
+
+def polarity_oracle():
+    """catalogue level: positive-only and negative-only catalogues are disjoint, of the requested sign, and together equal
+    the both-polarities catalogue - on an image where a bright negative source sits inside the box of a positive one"""
+    import logging
+    import os
+    import shutil
+    import tempfile
+    from astropy.io import fits
+    sfm = loader.real('source_finder')
+    d = tempfile.mkdtemp(prefix='c13_', dir='/var/tmp')
+    try:
+        N = 80
+        y, x = real_np.mgrid[0:N, 0:N].astype(float)
+        u, v = (x - y) / math.sqrt(2), (x + y - 80) / math.sqrt(2)
+        img = 15 * real_np.exp(-(u ** 2 / (2 * 1.6 ** 2) + v ** 2 / (2 * 9.0 ** 2)))          # elongated along the diagonal
+        img += -40 * real_np.exp(-((x - 52) ** 2 + (y - 28) ** 2) / (2 * 1.6 ** 2))            # compact negative source in a corner of its box
+        img += 12 * real_np.exp(-((x - 15) ** 2 + (y - 65) ** 2) / (2 * 1.6 ** 2))
+        hdr = fits.Header()
+        hdr['CTYPE1'], hdr['CTYPE2'] = 'RA---SIN', 'DEC--SIN'
+        hdr['CRVAL1'], hdr['CRVAL2'] = 30., -40.
+        hdr['CRPIX1'] = hdr['CRPIX2'] = N / 2
+        hdr['CDELT1'], hdr['CDELT2'] = -1 / 120, 1 / 120
+        hdr['BMAJ'] = hdr['BMIN'] = 1.6 * 2.3548 / 120
+        hdr['BPA'] = 0.
+        fn = os.path.join(d, 'a.fits')
+        fits.PrimaryHDU(img, header=hdr).writeto(fn)
+
+        def cat(**kw):
+            f = sfm.SourceFinder(log=logging.getLogger('c13'))
+            srcs = f.find_sources_in_image(fn, rms=0.5, bkg=0.0, cores=1, **kw)
+            return sorted((round(s.ra, 6), round(s.dec, 6), round(s.peak_flux, 4)) for s in srcs)
+        both = cat(nopositive=False, nonegative=False)
+        pos = cat(nopositive=False, nonegative=True)
+        neg = cat(nopositive=True, nonegative=False)
+        if any(p[2] < 0 for p in pos) or any(p[2] > 0 for p in neg):
+            return True, 'polarity-sign', 'positive-only %s negative-only %s' % (pos, neg)
+        if sorted(pos + neg) != both:
+            return True, 'polarity-union', 'positive-only (%d) + negative-only (%d) != both polarities (%d): missing %s' % (len(pos), len(neg), len(both), sorted(set(both) - set(pos + neg)))
+        return False, None, None
+    except Exception as e:
+        return True, 'raises-%s' % type(e).__name__, repr(e)[:200]
+    finally:
+        shutil.rmtree(d, ignore_errors=True)
+
+
+def h_sortkey(keycode):
+    def h(c):
+        key = eval(keycode, dict(core.BUILTINS, np=loader.NPProxy(), abs=core.sym_abs))
+        a = [real('a%d' % i) for i in range(2)]
+        b = [real('b%d' % i) for i in range(2)]
+        nan = float('nan')
+        sa = real_np.array([[a[0], nan], [a[1], nan]], dtype=object)
+        sb = real_np.array([[b[0], b[1]]], dtype=object)
+        L = core.lift
+        ka, kb = key([sa, 0, 2, 0, 2]), key([sb, 0, 1, 0, 2])
+        kna, knb = key([-sa, 0, 2, 0, 2]), key([-sb, 0, 1, 0, 2])
+        c.oblige('sortkey:summit order is unchanged by negating the island', z3.And(L(ka) == L(kna), L(kb) == L(knb)))
+        return dict()
+    return h
 
 
 def selectors(rep):
@@ -264,6 +345,29 @@ def selectors(rep):
         rep.end_kernel()
         return
     rep.sample(dict(kernel='K-selectors', slices=[t1[:600], t2[:500], t3[:500]]))
+    # the key that orders the summits (component numbering): extracted from the sorted(summits, key=...) call
+    fn_ = slicer.get_function(F, 'estimate_lmfit_parinfo', 'SourceFinder')
+    keys = [k.value for n in _ast.walk(fn_) if isinstance(n, _ast.Call) and getattr(n.func, 'id', '') == 'sorted' and 'summits' in _ast.unparse(n.args[0]) for k in n.keywords if k.arg == 'key']
+    if keys:
+        kexpr = _ast.Expression(body=keys[0])
+        _ast.fix_missing_locations(kexpr)
+        st, res = explore(h_sortkey(compile(kexpr, '<summit sort key>', 'eval')))
+        rep.stats(st)
+        sdone = False
+        for r in res:
+            for ob in r['obligations']:
+                rep.count(ob['result'], ob['name'])
+                if ob['result'] == 'sat' and not sdone:
+                    w = two_summit_witness(-1)
+                    bad, cls, detail = replay_selector(w)
+                    if not bad:
+                        w = two_summit_witness(+1)
+                        bad, cls, detail = replay_selector(w)
+                    if rep.finding('C13/K-selectors/summit-order:%s' % cls, w, detail, reproduced=bad) != 'not-reproduced':
+                        sdone = True
+        rep.sample(dict(kernel='K-selectors', plan='sortkey', key=_ast.unparse(keys[0])))
+    else:
+        rep.inconc('anchor-missing: sorted(summits, key=...) not found in estimate_lmfit_parinfo')
     plans = [(h_selector(fac_sel, flags_mod, +1), {}), (h_selector(fac_sel, flags_mod, -1), {}), (h_peak(fac_peak), {}), (h_bounds(fac_b), {})]
     names = ['selector+', 'selector-', 'peak', 'bounds']
     results = core.explore_many(plans, workers=4)
@@ -311,6 +415,15 @@ def run(rep):
     rep.end_kernel()
     polarity(rep)
     selectors(rep)
+    for w_ in (two_summit_witness(-1), two_summit_witness(+1)):
+        bad, cls, detail = replay_selector(w_)
+        rep.validated_runs(1)
+        if bad:
+            rep.finding('C13/K-selectors/summit-order:%s' % cls, w_, detail, kernel='K-selectors')
+    bad, cls, detail = polarity_oracle()
+    rep.validated_runs(3)
+    if bad:
+        rep.finding('C13/K-polarity-filter/%s' % cls, dict(kind='polarity-catalogue'), detail, kernel='K-polarity-filter')
     rep.not_decided += ['equality of the fitted catalogues of an image and its negation (needs the optimiser)', 'errors and flags unchanged under negation']
 
 
@@ -320,6 +433,8 @@ def replay(w):
         bad, cls, detail = replay_negate(wit)
     elif wit.get('kind') == 'selector':
         bad, cls, detail = replay_selector(wit)
+    elif wit.get('kind') == 'polarity-catalogue':
+        bad, cls, detail = polarity_oracle()
     else:
         return False, 'no concrete replay for this kernel'
     return bad, '%s: %s' % (cls, detail)
